@@ -36,7 +36,10 @@ inductive LibMode where
   | none | single | nested
   deriving DecidableEq, Repr
 
-/-- the event string handed to the profile function -/
+/-- the event string handed to the profile function.  `other`: any string that
+    is not one of the five profile events, with a C function as argument
+    (`sys.setprofile` never sends one; with any other argument
+    `convert_function_addr` returns NULL and the event is dropped) -/
 inductive EvKind where
   | call | ret | ccall | cret | cexc | other
   deriving DecidableEq, Repr
